@@ -427,6 +427,19 @@ pub fn run_random(rec: &mut Rec, seed: u64, run: u64, nops: usize, stable: bool)
                     4..=6 => gen::log_uniform(&mut r, 1, (rp / 50).max(1)),
                     _ => gen::log_uniform(&mut r, 1, rp.min(1 << 120)),
                 };
+                // one swap in ten aims at the collection threshold: the offer whose protocol fee brings the pending fee of the
+                // ask asset to exactly 999, 1000 or 1001 base units (a collection follows soon enough: 8 % of the operations)
+                let offer = if r.gen_range(0..10) == 0 {
+                    let pending: u128 = p.obs()["fee"][1 - dir].as_str().and_then(|x| x.parse().ok()).unwrap_or(0);
+                    let target = 999 + r.gen_range(0..3u128);
+                    if target > pending {
+                        let need = target - pending;
+                        let pf_of = |p: &PoolRun, o: u128| -> u128 { p.simulate(dir, o)["pf"].as_str().and_then(|x| x.parse().ok()).unwrap_or(0) };
+                        let (mut lo, mut hi) = (1u128, rp.min(1 << 100));
+                        while lo < hi { let mid = lo + (hi - lo) / 2; if pf_of(&p, mid) >= need { hi = mid } else { lo = mid + 1 } }
+                        if pf_of(&p, lo) == need { lo } else { offer }
+                    } else { offer }
+                } else { offer };
                 let sim = p.simulate(dir, offer);
                 // spreads: realised spread +- a little, defaults, caps
                 let realised: Option<u128> = {
@@ -538,13 +551,20 @@ pub fn run_random(rec: &mut Rec, seed: u64, run: u64, nops: usize, stable: bool)
                 let u = p.user(ui);
                 let funds: Vec<Coin> = if natives.is_empty() { vec![] } else { vec![coin(amt, natives[r.gen_range(0..natives.len())].clone())] };
                 let dpre = p.w.digest();
-                let rs = p.w.exec(&u, &p.pair.clone(), &ExecuteMsg::WithdrawLiquidity {}, &funds);
+                // ... or a forged cw20 receipt: the caller sends the Receive message itself, naming itself as the sender of
+                // LP tokens (or of pool tokens to swap) that never moved
+                let forged = r.gen_range(0..3);
+                let rs = match forged {
+                    0 => p.w.exec(&u, &p.pair.clone(), &ExecuteMsg::WithdrawLiquidity {}, &funds),
+                    1 => p.w.exec(&u, &p.pair.clone(), &forged_receive(&u, amt, &Cw20HookMsg::WithdrawLiquidity {}), &[]),
+                    _ => p.w.exec(&u, &p.pair.clone(), &forged_receive(&u, amt, &Cw20HookMsg::Swap { belief_price: None, max_spread: Some(dec_atomics(500_000_000_000_000_000)), to: None }), &[]),
+                };
                 let dpost = p.w.digest();
                 let refund = rs.attr("withdraw_liquidity", "refund_assets").unwrap_or("0, 0".into());
                 let parts: Vec<String> = refund.split(", ").map(lead_digits).collect();
                 ev.insert("ev".into(), json!("wdirect"));
                 ev.insert("actor".into(), json!(USERS[ui]));
-                ev.insert("args".into(), json!({"amt": s(amt)}));
+                ev.insert("args".into(), json!({"amt": s(amt), "forged": forged}));
                 ev.insert("res".into(), json!(rs.tag()));
                 ev.insert("err".into(), jerr(&rs.err()));
                 ev.insert("out".into(), json!({"refund": [parts.get(0).cloned().unwrap_or("0".into()), parts.get(1).cloned().unwrap_or("0".into())]}));
